@@ -77,6 +77,9 @@ func newEnvRmCmd(env *envCommand) *cobra.Command {
 			if err != nil {
 				return fmt.Errorf("invalid path: %w", err)
 			}
+			if len(path) == 0 {
+				return errors.New("path must contain at least one element")
+			}
 
 			def, tag, _, err := env.esc.client.GetEnvironment(ctx, ref.orgName, ref.projectName, ref.envName, "", false)
 			if err != nil {
@@ -94,11 +97,12 @@ func newEnvRmCmd(env *envCommand) *cobra.Command {
 				// Like `env set` and `env get`, address the imports from the root of the definition.
 				err = encoding.YAMLSyntax{Node: &docNode}.Delete(nil, path)
 			} else {
-				valuesNode, ok := encoding.YAMLSyntax{Node: &docNode}.Get(resource.PropertyPath{"values"})
-				if !ok {
+				if _, ok := (encoding.YAMLSyntax{Node: &docNode}.Get(resource.PropertyPath{"values"})); !ok {
 					return nil
 				}
-				err = encoding.YAMLSyntax{Node: valuesNode}.Delete(nil, path)
+				// Delete from the root of the definition rather than from the values node: when the last value is
+				// removed, Delete must also take care of the line comment of the `values` key.
+				err = encoding.YAMLSyntax{Node: &docNode}.Delete(nil, append(resource.PropertyPath{"values"}, path...))
 			}
 			if err != nil {
 				return err
